@@ -10,7 +10,8 @@ package logf
 
 //@ func (*LogInfo).ResetDefault
 //@   requires st != nil
-//@   modifies *st
+//@   modifies st.BHasSufix, st.BHasAppNamePrefix, st.BHasSquareBracket, st.SConcatStr, st.SSepar, st.SLogType
+//@   ensures [C04] st.BHasSufix == true && st.BHasAppNamePrefix == true && st.BHasSquareBracket == false && st.SConcatStr == "_" && st.SSepar == "|" && st.SLogType == ""
 //@   safety [C05]
 //
 //@ func (*LogInfo).ReadFrom
@@ -21,6 +22,56 @@ package logf
 //@   allocates
 //@   ensures [C05] readBuf.buf.i >= p0
 //@   ensures [C05] validR(readBuf)
+//@   let src = readBuf.buf.src
+//@   let d0 = readBuf.depth
+//@   let q0 = readBuf.buf.i
+//@   let k1 = decStrK(src, q0, 0, true, d0)
+//@   let q1 = (k1 == 0 ? decStrP(src, q0, 0, d0) : seekP(src, q0, 0, d0))
+//@   let ok1 = (k1 == 0 || (k1 == 1 && (seekK(src, q0, 0, d0) == 2 || (seekK(src, q0, 0, d0) == 1 && seekCanon(src, q0, 0, d0)))))
+//@   let k2 = decStrK(src, q1, 1, true, d0)
+//@   let q2 = (k2 == 0 ? decStrP(src, q1, 1, d0) : seekP(src, q1, 1, d0))
+//@   let ok2 = ok1 && (k2 == 0 || (k2 == 1 && (seekK(src, q1, 1, d0) == 2 || (seekK(src, q1, 1, d0) == 1 && seekCanon(src, q1, 1, d0)))))
+//@   let k3 = decStrK(src, q2, 2, true, d0)
+//@   let q3 = (k3 == 0 ? decStrP(src, q2, 2, d0) : seekP(src, q2, 2, d0))
+//@   let ok3 = ok2 && (k3 == 0 || (k3 == 1 && (seekK(src, q2, 2, d0) == 2 || (seekK(src, q2, 2, d0) == 1 && seekCanon(src, q2, 2, d0)))))
+//@   let k4 = decStrK(src, q3, 3, true, d0)
+//@   let q4 = (k4 == 0 ? decStrP(src, q3, 3, d0) : seekP(src, q3, 3, d0))
+//@   let ok4 = ok3 && (k4 == 0 || (k4 == 1 && (seekK(src, q3, 3, d0) == 2 || (seekK(src, q3, 3, d0) == 1 && seekCanon(src, q3, 3, d0)))))
+//@   let k5 = decStrK(src, q4, 4, false, d0)
+//@   let q5 = (k5 == 0 ? decStrP(src, q4, 4, d0) : seekP(src, q4, 4, d0))
+//@   let ok5 = ok4 && (k5 == 0 || (k5 == 1 && (seekK(src, q4, 4, d0) == 2 || (seekK(src, q4, 4, d0) == 1 && seekCanon(src, q4, 4, d0)))))
+//@   let k6 = decIntK(src, q5, 5, false, 1, d0)
+//@   let q6 = (k6 == 0 ? decIntP(src, q5, 5, d0) : seekP(src, q5, 5, d0))
+//@   let ok6 = ok5 && (k6 == 0 || (k6 == 1 && (seekK(src, q5, 5, d0) == 2 || (seekK(src, q5, 5, d0) == 1 && seekCanon(src, q5, 5, d0)))))
+//@   let k7 = decIntK(src, q6, 6, false, 1, d0)
+//@   let q7 = (k7 == 0 ? decIntP(src, q6, 6, d0) : seekP(src, q6, 6, d0))
+//@   let ok7 = ok6 && (k7 == 0 || (k7 == 1 && (seekK(src, q6, 6, d0) == 2 || (seekK(src, q6, 6, d0) == 1 && seekCanon(src, q6, 6, d0)))))
+//@   let k8 = decIntK(src, q7, 7, false, 1, d0)
+//@   let q8 = (k8 == 0 ? decIntP(src, q7, 7, d0) : seekP(src, q7, 7, d0))
+//@   let ok8 = ok7 && (k8 == 0 || (k8 == 1 && (seekK(src, q7, 7, d0) == 2 || (seekK(src, q7, 7, d0) == 1 && seekCanon(src, q7, 7, d0)))))
+//@   let k9 = decStrK(src, q8, 8, false, d0)
+//@   let q9 = (k9 == 0 ? decStrP(src, q8, 8, d0) : seekP(src, q8, 8, d0))
+//@   let ok9 = ok8 && (k9 == 0 || (k9 == 1 && (seekK(src, q8, 8, d0) == 2 || (seekK(src, q8, 8, d0) == 1 && seekCanon(src, q8, 8, d0)))))
+//@   let k10 = decStrK(src, q9, 9, false, d0)
+//@   let q10 = (k10 == 0 ? decStrP(src, q9, 9, d0) : seekP(src, q9, 9, d0))
+//@   let ok10 = ok9 && (k10 == 0 || (k10 == 1 && (seekK(src, q9, 9, d0) == 2 || (seekK(src, q9, 9, d0) == 1 && seekCanon(src, q9, 9, d0)))))
+//@   let k11 = decStrK(src, q10, 10, false, d0)
+//@   let q11 = (k11 == 0 ? decStrP(src, q10, 10, d0) : seekP(src, q10, 10, d0))
+//@   let ok11 = ok10 && (k11 == 0 || (k11 == 1 && (seekK(src, q10, 10, d0) == 2 || (seekK(src, q10, 10, d0) == 1 && seekCanon(src, q10, 10, d0)))))
+//@   opaque [C04] *
+//@   perreturn
+//@   ensures [C04] (ok1 && err == nil) ==> st.Appname == (k1 == 0 ? decStrV(src, q0, 0, d0) : old(st.Appname))
+//@   ensures [C04] (ok2 && err == nil) ==> st.Servername == (k2 == 0 ? decStrV(src, q1, 1, d0) : old(st.Servername))
+//@   ensures [C04] (ok3 && err == nil) ==> st.SFilename == (k3 == 0 ? decStrV(src, q2, 2, d0) : old(st.SFilename))
+//@   ensures [C04] (ok4 && err == nil) ==> st.SFormat == (k4 == 0 ? decStrV(src, q3, 3, d0) : old(st.SFormat))
+//@   ensures [C04] (ok5 && err == nil) ==> st.Setdivision == (k5 == 0 ? decStrV(src, q4, 4, d0) : old(st.Setdivision))
+//@   ensures [C04] (ok6 && err == nil) ==> st.BHasSufix == (k6 == 0 ? (decIntV(src, q5, 5, d0) != 0) : true)
+//@   ensures [C04] (ok7 && err == nil) ==> st.BHasAppNamePrefix == (k7 == 0 ? (decIntV(src, q6, 6, d0) != 0) : true)
+//@   ensures [C04] (ok8 && err == nil) ==> st.BHasSquareBracket == (k8 == 0 ? (decIntV(src, q7, 7, d0) != 0) : false)
+//@   ensures [C04] (ok9 && err == nil) ==> st.SConcatStr == (k9 == 0 ? decStrV(src, q8, 8, d0) : "_")
+//@   ensures [C04] (ok10 && err == nil) ==> st.SSepar == (k10 == 0 ? decStrV(src, q9, 9, d0) : "|")
+//@   ensures [C04] (ok11 && err == nil) ==> st.SLogType == (k11 == 0 ? decStrV(src, q10, 10, d0) : "")
+//@   ensures [C04] ok11 ==> (err == nil && readBuf.buf.i == q11)
 //@   safety [C05]
 //
 //@ func (*LogInfo).ReadBlock
